@@ -99,6 +99,7 @@ type epochRec struct {
 }
 
 type State struct {
+	ghostInts map[string]string // ghost counters
 	cells   map[*ssa.Alloc]Val
 	heap    map[string]string
 	epochs  []epochRec
@@ -108,7 +109,10 @@ type State struct {
 
 func (s *State) clone() *State {
 	n := &State{cells: make(map[*ssa.Alloc]Val, len(s.cells)), heap: make(map[string]string, len(s.heap)),
-		epochs: append([]epochRec(nil), s.epochs...), reach: s.reach, nextRef: s.nextRef}
+		epochs: append([]epochRec(nil), s.epochs...), reach: s.reach, nextRef: s.nextRef, ghostInts: map[string]string{}}
+	for k, v := range s.ghostInts {
+		n.ghostInts[k] = v
+	}
 	for k, v := range s.cells {
 		n.cells[k] = v
 	}
@@ -162,6 +166,8 @@ type FnCtx struct {
 	retCount int
 	closureOf map[*ssa.Alloc]*ssa.MakeClosure
 	firstIter []string
+	iterMap   map[ssa.Value]string
+	keepTrivial bool
 	ensuresAtSeen map[string]bool
 	refineHyp string
 	refineOf  *FuncContract
@@ -246,6 +252,13 @@ func (c *FnCtx) assume(st *State, cond string) {
 	st.reach = c.define("reach", sBool, and(st.reach, cond))
 }
 
+// obligeAlways records the obligation even when it is syntactically true (structural checks that must be counted).
+func (c *FnCtx) obligeAlways(st *State, kind, anchor string, pos token.Pos, cond, text string, tags []string) *Obligation {
+	c.keepTrivial = true
+	defer func() { c.keepTrivial = false }()
+	return c.oblige(st, kind, anchor, pos, cond, text, tags)
+}
+
 func (c *FnCtx) oblige(st *State, kind, anchor string, pos token.Pos, cond, text string, tags []string) *Obligation {
 	key := kind + "[" + anchor + "]"
 	c.anchors[key]++
@@ -256,7 +269,7 @@ func (c *FnCtx) oblige(st *State, kind, anchor string, pos token.Pos, cond, text
 	if len(props) == 0 {
 		props = c.fc.Serves
 	}
-	if trivialTrue(cond) {
+	if trivialTrue(cond) && !c.keepTrivial {
 		return nil
 	}
 	o := &Obligation{ID: c.name + "/" + key, Func: c.name, Kind: kind, Anchor: anchor, Props: props,
@@ -287,7 +300,7 @@ func (c *FnCtx) heapGet(st *State, name, sort string) string {
 		return t
 	}
 	ep := 0
-	for i := len(st.epochs) - 1; i >= 0; i-- {
+	for i := len(st.epochs) - 1; i >= 0 && !c.eng.isImmutable(name); i-- {
 		if strings.HasPrefix(name, st.epochs[i].prefix) {
 			ep = st.epochs[i].id
 			break
@@ -311,8 +324,9 @@ func (c *FnCtx) heapSet(st *State, name, sort, term string) {
 func (c *FnCtx) havocHeap(st *State, prefix string) {
 	c.nfresh++
 	id := c.nfresh
+	// families declared immutable keep their value: materialise them before the epoch changes
 	for k := range st.heap {
-		if strings.HasPrefix(k, prefix) {
+		if strings.HasPrefix(k, prefix) && !c.eng.isImmutable(k) {
 			delete(st.heap, k)
 		}
 	}
@@ -493,7 +507,7 @@ func (c *FnCtx) typeInv(st *State, v Val, t types.Type) string {
 		return and(le("0", i.Typ), implies(eq(i.Typ, "0"), eq(i.Pay, "0")))
 	case *types.Pointer:
 		if p, ok := v.(VPtr); ok && p.Root == rootObj && len(p.Path) == 0 {
-			return and(le("0", p.Ref), lt(p.Ref, st.nextRef))
+			return le("0", p.Ref) // (pointers into arrays kept in memory are encoded as huge references, see elemptr)
 		}
 	case *types.Struct:
 		sv := v.(VStruct)
